@@ -116,8 +116,7 @@ RECURSIVE DocMatches(_, _)
 DocMatches(a, b) ==
     IF a.k = "real" THEN
         IF b.k = "real" THEN a.lo = b.lo /\ a.hi = b.hi /\ (a.neg = b.neg \/ (a.lo.ip = <<0>> /\ a.lo.fp = <<>>))
-        \* an integral real may come back as the integer of the same value: the integer must denote
-        \* the same f32, i.e. lie in its rounding interval (Rust prints 191758816f32 as "191758820")
+        \* an integral real may come back as the integer of the same value (exactly: RealTokMatches)
         ELSE IF b.k = "int" THEN RealTokMatches(a, b)
         ELSE FALSE
     ELSE IF a.k # b.k THEN FALSE
